@@ -1635,6 +1635,31 @@ def gen_conc(seed, n, start_id=0):
 # C13, direction "independent encoder writes, library reads": a history whose store is replaced by
 # the database image the *model* encodes for one retained version
 
+def gen_sync_soak(seed, n, start_id=0):
+    """C05: long runs of small synchronous commits on one tree object (every commit far below the flush
+    threshold, so each must be one physical write): state that a batch wrapper carries from one commit
+    to the next (counters, size estimates) only shows after thousands of staged entries. The write log of
+    every commit is compared with the flusher model (`wlog`)."""
+    out = []
+    for i in range(n):
+        r = random.Random((seed * 2147483587 + start_id + i) & 0xFFFFFFFFFFFF)
+        hid = "soak%d" % (start_id + i)
+        lines = ["new " + hid, "cfg db=mem cache=%d fast=1 thr=0 iv=- sync=1" % r.choice([0, 100]), "open"]
+        k = 0
+        for c in range(r.randint(24, 30)):
+            for _ in range(r.randint(140, 170)):
+                if k > 50 and r.random() < 0.1:
+                    lines.append("rm %s" % enc(b"s%05d" % r.randrange(k)))
+                else:
+                    lines.append("set %s %s" % (enc(b"s%05d" % k), enc(bytes([r.randrange(256)]))))
+                    k += 1
+            lines.append("save")
+            lines.append("wlog")
+        lines += ["close", "open", "latest", "size", "lhash"]
+        out.append((hid, lines))
+    return out
+
+
 def gen_encodedb(seed, n, start_id=0):
     out = []
     prof = Profile(p_prune=0.15, p_loadow=0.05, p_reopen=0.1, check_all_versions=0.0, big=0.15, dump=0.0,
